@@ -41,6 +41,10 @@ def decorate(rng, sc):
         sc["faults"] = [{"at": a, "kind": "regionerr:" + rng.choice(RE_KINDS)} for a in sorted(rng.sample(range(0, 30), rng.choice([1, 2, 4, 6])))]
     if rng.random() < 0.12:
         sc["txns"]["t1"]["filter_keys"] = rng.sample(KEYS, rng.choice([1, 2, 3]))
+    for st in sc["program"]:
+        # the caller's context is cancelled right after the call returned (the release of locks by Done / Cancel / Commit is detached)
+        if st.get("t") == "t1" and st["op"] in ("agg_done", "agg_cancel", "commit") and rng.random() < 0.5:
+            st["cancel_after"] = True
     if rng.random() < 0.35:
         # topology changes inside a request's window: 1-3 split keys right before the n-th request of a command type of t1's
         # client (the request was built for the old layout and is re-grouped into several batches)
@@ -77,6 +81,71 @@ def gen_expiry_program(rng, idx):
     return {"id": f"x{idx}", "backend": BACKEND, "splits": rng.sample(KEYS[1:], rng.choice([0, 1])), "preload": [{"k": k, "v": "old-" + k} for k in KEYS if rng.random() < 0.6],
             "batch_size": 0, "txn": {"mode": "2pc", "ops": []}, "txns": {"t1": {"mode": rng.choice(["2pc", "async"]), "pessimistic": True, "causal": False, "ops": []}},
             "program": prog, "keys": KEYS, "black_from": -1, "managed_ttl": 25}
+
+
+FP_ROLLBACK = "tikvclient/beforeAsyncPessimisticRollback"
+
+
+def gen_schedule_program(rng, idx):
+    """schedule classes (requests only delayed / reordered, never lost): a lock request of one region held back until the
+    rollback of its key; the background rollback of a failed call paused until the call was retried; a transaction kept open
+    beyond its managed TTL (keep-alive); a first lock that fails outright (no primary may stay)"""
+    kind = rng.choice(["hold", "hold", "late_rollback", "late_rollback", "keepalive", "first_fails"])
+    L = lambda ks, **kw: dict({"t": "t1", "op": "lock", "ks": ks, "wait": -1}, **kw)
+    prog = [{"t": "t2", "op": "begin"}, {"t": "t1", "op": "begin"}]
+    sc = {"id": f"s{idx}", "backend": BACKEND, "splits": [], "preload": [{"k": k, "v": "old-" + k} for k in KEYS if rng.random() < 0.6], "batch_size": 0,
+          "txn": {"mode": "2pc", "ops": []}, "txns": {"t1": {"mode": rng.choice(["2pc", "2pc", "async"]), "pessimistic": True, "causal": False, "ops": []},
+                                                       "t2": {"mode": "2pc", "pessimistic": True, "causal": False, "ops": []}},
+          "program": prog, "keys": KEYS, "black_from": -1}
+    fin = lambda: prog.extend([{"t": "t1", "op": rng.choice(["commit", "commit", "rollback"])}, {"t": "t2", "op": "rollback"}])
+    if kind in ("hold", "late_rollback"):
+        ks = rng.sample(KEYS, rng.choice([3, 4]))
+        kp, kx, rest = ks[0], ks[1], ks[2:]                       # primary, the key t2 holds, the other keys of the call
+        sc["splits"] = sorted(k for k in ks if k != "k1")          # every key of the call in its own region
+        if kind == "hold" or rng.random() < 0.5:
+            prog.append(L([kp]))
+        prog.append({"t": "t2", "op": "lock", "ks": [kx], "wait": -1})
+        if kind == "hold":
+            prog.append(L([kx] + rest, wait=rng.choice([-1, -1, 30])))
+            sc["extras"] = [{"what": "hold", "cmd": "PessimisticLock", "k": rng.choice(rest), "until": "PessimisticRollback", "max_ms": 250}]
+            if rng.random() < 0.5:
+                prog.append(L(rng.sample(KEYS, 2)))
+        else:
+            prog.append({"t": "t1", "op": "failpoint", "k": FP_ROLLBACK, "v": "pause"})
+            prog.append(L(rest + [kx]))
+            prog.append({"t": "t2", "op": "rollback"})
+            prog.append(L(rng.sample(rest + [kx], rng.randrange(1, len(rest) + 2))))
+            prog.append({"t": "t1", "op": "failpoint", "k": FP_ROLLBACK, "v": ""})
+            prog.append({"t": "t1", "op": "audit"})
+            if rng.random() < 0.5:
+                prog.append({"t": "t1", "op": "set", "k": rng.choice(ks), "v": "z"})
+        fin()
+    elif kind == "keepalive":
+        sc["managed_ttl"] = 300
+        if rng.random() < 0.7:
+            prog.append(L([rng.choice(KEYS)], rv=True, loie=True))
+        prog.append(L(rng.sample(KEYS, rng.choice([1, 2]))))
+        if rng.random() < 0.3:
+            prog += [{"t": "t1", "op": "agg_start"}, L([rng.choice(KEYS)]), {"t": "t1", "op": "agg_done"}]
+        prog.append({"t": "t1", "op": "sleep", "wait": 500})
+        if rng.random() < 0.5:
+            prog.append(L([rng.choice(KEYS)]))
+        fin()
+    else:
+        k = rng.choice(KEYS)
+        if rng.random() < 0.5:
+            sc["preload"] = [p for p in sc["preload"] if p["k"] != k] + [{"k": k, "v": "old-" + k}]
+            prog.append({"t": "t1", "op": "insert", "k": k, "v": "i"})            # key exists
+        else:
+            st = L([k])
+            if conflict_pattern(rng, prog, sc["txns"], k):
+                st["v"] = "fu_saved"                                                # write conflict
+            prog.append(st)
+        for _ in range(rng.randrange(1, 3)):
+            prog.append(L(rng.sample(KEYS, rng.choice([1, 2]))))
+        prog.append({"t": "t1", "op": "set", "k": rng.choice(KEYS), "v": "x"})
+        fin()
+    return sc
 
 
 def gen_program(rng, idx):
@@ -213,6 +282,33 @@ def directed():
     out[-1]["extras"] = [xs("Commit", ("k2", "k3", "k4"))]
     out.append(sc(45, B + [{"t": "t2", "op": "lock", "ks": ["k5"], "wait": -1}, L(["k1", "k2", "k3", "k4", "k5"]), A("agg_start"), L(["k1"]), L(["k3"]), A("agg_cancel"), A("commit"), {"t": "t2", "op": "rollback"}]))
     out[-1]["extras"] = [xs("PessimisticLock", ("k2", "k4")), xs("PessimisticRollback", ("k3",)), xs("PessimisticRollback", ("k2",), at=1)]
+    # schedules (no request lost, only reordered / delayed):
+    # the lock request of one region is held back until the rollback of its key was answered (at most 300 ms): a LockKeys
+    # call must not return (and spawn the rollback of all its keys) while requests of other regions are still in flight
+    out.append(sc(50, B + [L(["k1"]), {"t": "t2", "op": "lock", "ks": ["k3"], "wait": -1}, L(["k2", "k3"]), A("rollback"), {"t": "t2", "op": "rollback"}], splits=("k2", "k3")))
+    out[-1]["extras"] = [{"what": "hold", "cmd": "PessimisticLock", "k": "k2", "until": "PessimisticRollback", "max_ms": 300}]
+    out.append(sc(51, B + [L(["k5"]), {"t": "t2", "op": "lock", "ks": ["k1"], "wait": -1}, L(["k1", "k2", "k4"]), L(["k3"]), A("commit"), {"t": "t2", "op": "rollback"}], splits=("k2", "k4")))
+    out[-1]["extras"] = [{"what": "hold", "cmd": "PessimisticLock", "k": "k4", "until": "PessimisticRollback", "max_ms": 300}]
+    # the caller cancels its context as soon as Done / Cancel / Commit returned: the release of the locks is detached
+    out.append(sc(52, B + [A("agg_start"), L(["k1"]), L(["k2"]), A("agg_retry"), L(["k1"]), dict(A("agg_done"), cancel_after=True), A("rollback"), {"t": "t2", "op": "rollback"}], splits=("k2",)))
+    out.append(sc(53, B + [A("agg_start"), L(["k1"]), A("agg_retry"), L(["k2"]), L(["k3"]), dict(A("agg_cancel"), cancel_after=True), dict(A("commit"), cancel_after=True), {"t": "t2", "op": "rollback"}], splits=("k3",)))
+    out.append(sc(54, B + [L(["k1", "k2"]), {"t": "t1", "op": "set", "k": "k1", "v": "a"}, {"t": "t1", "op": "set", "k": "k3", "v": "b"}, A("agg_start"), L(["k4"]), A("agg_retry"), dict(A("commit"), cancel_after=True), {"t": "t2", "op": "rollback"}], splits=("k2", "k3")))
+    # the background rollback of a failed call is scheduled late (product failpoint pause), after the call was retried
+    # with a fresh for-update ts: it must release with the ts of the FAILED call and leave the retried call's locks alone
+    FP = "tikvclient/beforeAsyncPessimisticRollback"
+    out.append(sc(55, B + [{"t": "t2", "op": "lock", "ks": ["k2"], "wait": -1}, {"t": "t1", "op": "failpoint", "k": FP, "v": "pause"}, L(["k1", "k2"]), {"t": "t2", "op": "rollback"}, L(["k1", "k2"]),
+                           {"t": "t1", "op": "failpoint", "k": FP, "v": ""}, A("audit"), A("commit")], splits=("k2",)))
+    out.append(sc(56, B + [{"t": "t2", "op": "lock", "ks": ["k4"], "wait": -1}, L(["k5"]), {"t": "t1", "op": "failpoint", "k": FP, "v": "pause"}, L(["k1", "k3", "k4"]), {"t": "t2", "op": "rollback"}, L(["k1", "k4"]),
+                           {"t": "t1", "op": "failpoint", "k": FP, "v": ""}, A("audit"), {"t": "t1", "op": "set", "k": "k1", "v": "z"}, A("commit")], splits=("k3", "k4")))
+    # keep-alive: the first lock is a lock-only-if-exists miss (tentative primary dropped), the real primary comes later and
+    # the transaction stays open for more than a managed TTL (300 ms)
+    out.append(sc(57, B + [L(["k4"], rv=True, loie=True), L(["k1"]), {"t": "t1", "op": "sleep", "wait": 500}, L(["k2"]), A("commit"), {"t": "t2", "op": "rollback"}]))
+    out[-1]["managed_ttl"] = 300
+    out.append(sc(58, B + [L(["k1"], rv=True, loie=True), L(["k2"]), {"t": "t1", "op": "sleep", "wait": 500}, A("rollback"), {"t": "t2", "op": "rollback"}]))
+    out[-1]["managed_ttl"] = 300
+    # the first lock of the transaction is a single-key call failing with write conflict / key exists: no primary may stay
+    out.append(sc(59, B + [A("fu_take"), {"t": "t2", "op": "set", "k": "k1", "v": "c"}, {"t": "t2", "op": "commit"}, L(["k1"], v="fu_saved"), L(["k2"]), {"t": "t1", "op": "set", "k": "k2", "v": "x"}, A("commit")]))
+    out.append(sc(60, B + [{"t": "t1", "op": "insert", "k": "k1", "v": "i"}, L(["k3"]), {"t": "t1", "op": "set", "k": "k3", "v": "x"}, A("commit"), {"t": "t2", "op": "rollback"}]))
     # deadlock: t2 holds k2 and has asked for k1 (held by t1); t1 asking for k2 closes the cycle
     out.append(sc(32, B + [L(["k1"]), {"t": "t2", "op": "lock", "ks": ["k2"], "wait": -1}, {"t": "t2", "op": "lock", "ks": ["k1"], "wait": 30}, L(["k3", "k2"], wait=30), A("commit"), {"t": "t2", "op": "rollback"}], splits=("k2", "k3")))
     # expiry of the previous attempt's locks (managed TTL 25 ms, 45 ms pause): the re-lock must be requested again
@@ -368,6 +464,70 @@ def run_model(mr, scs, res):
     return out
 
 
+def side_oracles(sc, r):
+    """oracles on the client's own state of t1 that a leftover-lock scan cannot see (all evaluated on the implementation):
+    (P) while a pessimistic transaction is open, its primary key is a key the client tracks as locked (flagged, current or
+        previous aggressive-locking key) — a never-locked "ghost" primary makes later locks and prewrites name a key that holds
+        no lock and leaves the commit without a primary batch;
+    (H) every TxnHeartBeat of the transaction names a key that was its primary or a tracked key around the time it was sent
+        (tolerance: the call during which it was sent and the two calls before), and a pause of >= 1.5 managed TTL with a
+        primary set and nothing else going on sees at least one heart-beat naming that primary;
+    (A) at an `audit` step (background work quiet) every key the client has flagged as locked holds a lock of the
+        transaction in the store (a late background rollback must not remove the locks of a retried call)."""
+    info = (r.get("txns") or {}).get("t1")
+    if not info or not info.get("pessimistic"):
+        return []
+    out = []
+    S = info["start"]
+    steps = [s for s in r.get("steps", []) if s.get("t") == "t1" and "bk" in s and not s.get("skipped")]
+    tracked = lambda bk: set(bk["locked"]) | set(bk["agg_cur"]) | set(bk["agg_prev"])
+    done = False
+    for s in steps:
+        if s["op"] in ("commit", "rollback"):
+            done = True
+        bk = s["bk"]
+        if "less than previous LockedWithConflictTS" in str(s.get("err") or ""):
+            done = True     # the caller broke the contract (for-update ts below a conflict ts it was told): the code's "unreachable" path
+        if not done and bk.get("primary") and bk["primary"] not in tracked(bk):
+            out.append(f"(P) after step {s['i']} ({s['op']}{' ' + s['err'] if s.get('err') else ''}) the primary {bk['primary']!r} is not a key the client holds (locked {sorted(tracked(bk))})")
+            break
+        if not done and s["op"] == "audit":
+            miss = [k for k in bk["locked"] if (s.get("locks") or {}).get(k) != S]
+            if miss:
+                out.append(f"(A) at step {s['i']} the client has {sorted(bk['locked'])} flagged as locked but the store holds no lock of the transaction on {miss}")
+    # heart-beats by window
+    unhex = lambda h: bytes.fromhex(h).decode()
+    by_i = {s["i"]: s for s in steps}
+    order = [s["i"] for s in steps]
+    hb, cur_hb = {}, []
+    for e in r.get("trace", []):
+        if e["kind"] == "api":
+            hb[e["f"].get("i")] = cur_hb
+            cur_hb = []
+        elif e["kind"] == "send" and e.get("cmd") == "TxnHeartBeat" and (e.get("f") or {}).get("start") == S:
+            cur_hb.append(unhex(e["f"]["primary"]))
+    ttl = sc.get("managed_ttl") or 20000
+    done = False
+    for pos, i in enumerate(order):
+        s = by_i[i]
+        if s["op"] in ("commit", "rollback"):
+            done = True
+        near = [by_i[j]["bk"] for j in order[max(0, pos - 3):pos + 1]]
+        ok = set()
+        for bk in near:
+            ok |= tracked(bk) | ({bk["primary"]} if bk.get("primary") else set())
+        for name in hb.get(i, []):
+            if not done and name not in ok:
+                out.append(f"(H) a heart-beat sent during step {i} ({s['op']}) names {name!r}, neither the primary nor a key the client holds (allowed {sorted(ok)})")
+                break
+        if not done and s["op"] == "sleep" and pos > 0:
+            before = by_i[order[pos - 1]]["bk"]
+            w = sc["program"][i].get("wait", 0)
+            if before.get("primary") and w >= 1.5 * ttl and before["primary"] not in hb.get(i, []):
+                out.append(f"(H) no heart-beat named the primary {before['primary']!r} during a pause of {w} ms (managed TTL {ttl} ms); heart-beats sent: {hb.get(i, [])}")
+    return out[:3]
+
+
 def judge(v, sc, r, mres, counts):
     """oracle + correspondence verdict of one program; returns number of violations reported"""
     bad = leftovers(r)
@@ -378,12 +538,18 @@ def judge(v, sc, r, mres, counts):
         v.violation({"kind": "property-oracle", "scenario": sc, "steps": [{k: w for k, w in s.items() if k != "bk"} for s in r.get("steps", [])],
                      "txns": r.get("txns"), "model_leftover": mleft, "model_vs_client": mbad[:5],
                      "violated": ["lock of a finished transaction left behind: %s" % bad]})
+    so = side_oracles(sc, r)
+    if so:
+        n += 1
+        counts["side_oracle_failures"] = counts.get("side_oracle_failures", 0) + 1
+        v.violation({"kind": "property-oracle", "scenario": sc, "steps": [{k: w for k, w in s.items() if k != "bk"} for s in r.get("steps", [])],
+                     "txns": r.get("txns"), "violated": so, "model_vs_client": mbad[:5]})
     if mres is not None:
         lo1 = sorted(x["key"] for x in bad if x["txn"] == "t1")
         allbad = list(mbad) + ([f"final lock set of t1: model={mleft} audit={lo1}"] if mleft != lo1 else [])
         if allbad:
             counts["model_disagree"] = counts.get("model_disagree", 0) + 1
-            if not bad and counts["model_disagree"] <= 3:
+            if not bad and not so and counts["model_disagree"] <= 3:
                 n += 1
                 v.violation({"kind": "correspondence", "correspondence": "Locks model (coq/theories/Locks/Model.v, ocaml/locks) vs client bookkeeping (TxnProbe) / MVCC audit",
                              "disagreements": allbad[:8], "scenario": sc, "theorem": "C06_bookkeeping_inv / C06_no_leftover speak about this model"}, has_input=False)
@@ -420,7 +586,7 @@ def main(tier, replay):
         judge(v, sc, r, mres, counts)
         return v.finish()
     n = 700 if tier == "quick" else 6000
-    scs = directed() + [gen_program(rng, i) for i in range(n)] + [gen_agg_program(rng, i) for i in range(n // 2)] + [gen_expiry_program(rng, i) for i in range(n // 12)]
+    scs = directed() + [gen_program(rng, i) for i in range(n)] + [gen_agg_program(rng, i) for i in range(n // 2)] + [gen_expiry_program(rng, i) for i in range(n // 12)] + [gen_schedule_program(rng, i) for i in range(n // 25)]
     res = txnlab.run_scenarios(exe, scs)
     mall = run_model(mr, scs, res) if mr else {}
     nviol, dist, distinct, steps_cmp = 0, {}, set(), 0
@@ -446,6 +612,9 @@ def main(tier, replay):
                 counts[kk] = counts.get(kk, 0) + 1
         for e in r.get("trace", []):
             f = e.get("f") or {}
+            if e["kind"] == "note" and f.get("helper") == "hold":
+                kk = "hold:released-by-rollback" if f.get("released_by_until") else "hold:timed-out"
+                counts[kk] = counts.get(kk, 0) + 1
             if e["kind"] == "note" and f.get("helper") == "split" and f.get("cmd"):
                 counts["split-before:" + f["cmd"]] = counts.get("split-before:" + f["cmd"], 0) + 1
         if sc["txns"]["t1"].get("filter_keys"):
